@@ -478,7 +478,7 @@ theorem C10_converges_insync_partial (s : Sys) (pr : PrInfo) (h : InSyncState s 
 example :
     let s := BertE.Drv.C01.initSys false false [.dev 4 (some 3), .dev 5 (some 1)]
     let s0 := (step s (.extSet "feature/x" [1] false)).1
-    let pr : PrInfo := ⟨1, "feature/x", .dev 4 (some 3)⟩
+    let pr : PrInfo := ⟨1, "feature/x", .dev 4 (some 3), false⟩
     let s1 := (step s0 (.evalPr pr .integration [] [])).1
     let s2 := (step s1 (.evalPr pr .integration [] [])).1
     let s3 := (step s2 (.evalPr pr .integration [] [])).1
@@ -491,7 +491,7 @@ example :
 example :
     let s := BertE.Drv.C01.initSys true false [.dev 4 (some 3), .dev 5 (some 1)]
     let s0 := (step s (.extSet "feature/x" [1] false)).1
-    let pr : PrInfo := ⟨1, "feature/x", .dev 4 (some 3)⟩
+    let pr : PrInfo := ⟨1, "feature/x", .dev 4 (some 3), false⟩
     let s1 := (step s0 (.evalPr pr .integration [] [])).1
     let s3 := reevaluate pr s1 [[], []]
     s1.remote.get (.w (.dev 5 (some 1)) "feature/x") = some 4 ∧
@@ -502,7 +502,7 @@ example :
 example :
     let s := BertE.Drv.C01.initSys false false [.dev 4 (some 3), .dev 5 (some 1)]
     let s0 := (step s (.extSet "feature/x" [1] false)).1
-    let pr : PrInfo := ⟨1, "feature/x", .dev 4 (some 3)⟩
+    let pr : PrInfo := ⟨1, "feature/x", .dev 4 (some 3), false⟩
     let s1 := (step s0 (.evalPr pr .integration [] [])).1
     (plan s1 (.reset pr)).ops.length = 1 ∧ (plan (step s1 (.reset pr)).1 (.reset pr)).ops = [] ∧
     (step s1 (.reset pr)).1.remote.get (.w (.dev 5 (some 1)) "feature/x") = none := by decide
